@@ -58,6 +58,8 @@ ASSUMPTIONS = [
     'when the client prefers XML they are additionally XML-1.0 characters without carriage return (other characters are not representable in XML 1.0 at all)',
     'header values of HTTPError/HTTPStatus are ASCII and header names are not repeated (set_headers semantics; header well-formedness is C05)',
     'an error handler that itself raises something other than HTTPError/HTTPStatus is outside the statement: the oracle accepts both "propagates to the server" and "500"',
+    'the Accept header is ASCII and its q values have at most four decimals and no exponent (the fragment of the negotiation model; the oracles do not need this)',
+    'media handler objects are truthy and none is registered under the literal key "*/*" (needed only by Es.serialize_xml_type and the second half of Es.serialize_typeOnly_only)',
     'Accept headers come from a well-formed grammar of up to 3 media ranges with q in {absent, 0, 0.1, 0.5, 0.9, 1}',
 ]
 RULE = ('(a) resolution: random exception class DAGs (1..6 generated classes with 1..3 bases under Exception / LookupError / KeyError / ValueError / HTTPError / HTTPNotFound / '
@@ -67,12 +69,19 @@ RULE = ('(a) resolution: random exception class DAGs (1..6 generated classes wit
         '(b) raise sites x {HTTPError, HTTPStatus, plain exception, app exception with a custom handler that sets text/data/media/nothing or raises HTTPError/HTTPStatus/plain} '
         'x text/data/media set before the raise, incl. the 415 raised by rendering media with an unsupported content type; '
         '(c) default rendering: HTTPError with random status / title / description / code / href / href_text / headers over arbitrary Unicode x Accept headers x xml_error_serialization on/off x '
-        'an extra configured media handler; HTTPStatus with random status/headers/text; plain exceptions. '
+        'extra configured response media handlers (a YAML-like one, one keyed application/xml, one with a +json suffix; JSON / form handlers sometimes removed) x a header set before the raise; '
+        'HTTPStatus with random status/headers/text; plain exceptions; '
+        '(d) default_serialize_error, HTTPError.to_dict and _compose_error_response/_compose_status_response called directly on WSGI and ASGI request/response objects: handler mappings of 0..5 keys '
+        'incl. wildcards, parameters, other case, unparsable and falsy handlers x Accept headers of 1..4 members incl. malformed ones, upper case, "+json"/"+xml" suffixes, invalid q values x '
+        'title/description/code/href/href_text in {None, empty, given} x response headers set before x error headers with repeated names in different case and Set-Cookie. '
         'non-trivial = an exception was raised and a handler (custom or default) produced the response; distinct = distinct (part, stack, configuration)')
-PARTIAL = ('Proved in Lean: handler resolution (nearest class in the MRO, latest registration per class) and the _handle_exception step (body reset, handler-raised HTTPError/HTTPStatus '
-           'rendered in turn, escape iff unhandled or the handler raises something else, defaults => 500 / own status). NOT proved: that every raise window of App.__call__ is wrapped '
-           '(checked by the raise-site generator + oracle, and by C03\'s pipeline correspondence), content negotiation of default_serialize_error and the faithfulness of the JSON/XML '
-           'encoders (checked by parsing the emitted body with the standard library and comparing every field).')
+PARTIAL = ('Proved in Lean: handler resolution (nearest class in the MRO, latest registration per class); the _handle_exception step (body reset, handler-raised HTTPError/HTTPStatus '
+           'rendered in turn, escape iff unhandled or the handler raises something else, defaults => 500 / own status); the content negotiation of default_serialize_error on top of the proved '
+           'model of mediatypes.best_match (JSON wins every tie, XML only if preferred and enabled, form types never, nothing iff nothing accepted and no +json/+xml suffix, Vary: Accept always '
+           'appended); the field set of HTTPError.to_dict; status and headers kept by _compose_error_response / _compose_status_response. NOT proved: that every raise window of App.__call__ is '
+           'wrapped (checked by the raise-site generator + oracle, and by C03\'s pipeline correspondence); the faithfulness of the JSON/XML/media-handler encoders and of uri.encode for the link '
+           '(checked by parsing the emitted body with the standard library and comparing every field); Response header emission after composition (C05); the negotiation model is restricted to '
+           'ASCII Accept headers with q values of at most four decimals (other inputs answer "unsupported").')
 JOBS = {'quick': 12, 'thorough': 16}
 
 D_EXC, D_HTTP, D_STATUS = 9001, 9002, 9003
@@ -990,10 +999,8 @@ def _direct(ctx):
             for k, v in last.items():
                 if k == 'vary' and not is_status:
                     if after.get(k) != v + ', Accept': what = what or f'Vary is {after.get(k)!r}, expected {v + ", Accept"!r}'
-                elif k == 'content-type' and not is_status and bk != 'untouched':
-                    pass
-                elif k == 'content-type' and not is_status and after.get(k) not in (v, XML_A, XML_T):
-                    what = what or f'Content-Type is {after.get(k)!r}'
+                elif k == 'content-type' and not is_status:
+                    pass                                  # the serializer may replace it with the type of the rendering
                 elif k != 'content-type' and after.get(k) != v:
                     what = what or f'header {k} is {after.get(k)!r}, the raised object says {v!r}'
             for k, v in before.items():
@@ -1020,10 +1027,15 @@ def _direct(ctx):
     sess.finish()
 
 
-LEVEL_TEXT = ('Machine-checked proofs (Lean 4) about a transcription of add_error_handler/_find_error_handler/_handle_exception: the handler of the nearest class in the MRO with the latest '
-              'registration is chosen for every MRO and registration history; the body set before the raise never influences the result; an HTTPError/HTTPStatus raised by the handler is '
-              'rendered in turn; with the default registrations an Exception-derived error yields 500 and does not escape. The model is tied to falcon/app.py and falcon/asgi/app.py on every '
-              'run by a differential correspondence (the real app, WSGI and ASGI, every raise site incl. body rendering, against the compiled model) and independent oracles written from the '
-              'statement decide failing inputs, including the faithfulness of the default JSON/XML error bodies over arbitrary Unicode.')
-LEVEL_NOTE = ('Trusted: Lean kernel + standard axioms; the correspondence harness and oracles; json/ElementTree decoders. Content negotiation and encoder faithfulness are oracle-checked, not proved.')
-TECHNIQUE = 'Lean 4 proofs about the handler-resolution/handling model + differential correspondence (real app vs model, WSGI and ASGI) + statement oracles with stdlib decoding'
+LEVEL_TEXT = ('Machine-checked proofs (Lean 4) about transcriptions of add_error_handler/_find_error_handler/_handle_exception, default_serialize_error (on top of the proved model of '
+              'mediatypes.best_match), HTTPError.__init__/to_dict and _compose_error_response/_compose_status_response with Response.set_headers/append_header: the handler of the nearest class in '
+              'the MRO with the latest registration is chosen for every MRO and registration history; the body set before the raise never influences the result; an HTTPError/HTTPStatus raised by '
+              'the handler is rendered in turn; with the default registrations an Exception-derived error yields 500 and does not escape; for every configuration and Accept header JSON is chosen '
+              'whenever no offered type has a higher quality, XML only if strictly preferred (or by the +xml suffix) and enabled, the request-only form types never, nothing iff the client accepts '
+              'none of the offered types and no suffix heuristic fires; Vary: Accept is always appended after the error\'s own headers; the error document has exactly the fields that are set; '
+              'status and headers of the HTTPError/HTTPStatus are kept. The models are tied to falcon/app.py, falcon/asgi/app.py, falcon/app_helpers.py and falcon/http_error.py on every run by '
+              'differential correspondences (the real app, WSGI and ASGI, every raise site incl. body rendering, and the modelled functions called directly on exotic configurations, against the '
+              'compiled models) and independent oracles written from the statement decide failing inputs, including the faithfulness of the default JSON/XML error bodies over arbitrary Unicode.')
+LEVEL_NOTE = ('Trusted: Lean kernel + standard axioms; the correspondence harness and oracles; json/ElementTree decoders. Encoder faithfulness (json.dumps, ElementTree, media handlers, uri.encode) '
+              'is oracle-checked, not proved; the negotiation model covers ASCII Accept headers with plain decimal q values.')
+TECHNIQUE = 'Lean 4 proofs about the handler-resolution/handling/negotiation/composition models + differential correspondence (real app and functions vs models, WSGI and ASGI) + statement oracles with stdlib decoding'
